@@ -89,3 +89,41 @@ def wrapper_forwarding(ctx, T):
         ctx.issue(f"wrapper:{m['name']}", f"Builder::{m['name']} forwards {m['args']} to {m['callee']} (parameters are {[p[0] for p in m['params']]}): "
                   + ("the two forms of one request return different ids" if differ else "argument order differs"),
                   witness={"request": req, "implementation": resp}, found_input=differ, kind="oracle")
+
+
+def scale_modules(g, tier):
+    """Instructions at and next to the largest sizes the format can express (an instruction has at most 65535 words), each inside the
+    smallest module the loader accepts it in: returns [(label, [Inst, ...], index of the big instruction)].  The Lean driver is not run on
+    these (its decoder model walks a list per word: quadratic in the input size); they are judged on the implementation alone by the
+    property's own oracle, in support of the theorems, which are not bounded in size."""
+    import instgen
+    I, Op = instgen.Inst, instgen.Op
+    sv, idr, l32 = g.vix["LiteralString"], g.vix["IdRef"], g.vix["LiteralBit32"]
+    out = []
+    # strings: the longest OpString has 65535 - 2 words = 262131 bytes + NUL; lengths around 2^16 bytes / 2^16 - 4 and around the maximum
+    lens = [65527, 65528, 65531, 65532, 65535, 65536, 65537, 131071, 131072, 262127, 262128, 262130, 262131]
+    if tier == "quick":
+        lens = [65531, 65532, 65536, 131072, 262131]
+    for n in lens:
+        out.append((f"OpString/{n}", [I(g.opv["String"], "String", None, 1, [Op("s", sv, list(instgen.long_string(n, n % 26)))])], 0))
+    # a string followed by further operands (OpEntryPoint model %fn "name" %interface...): 65535 - 4 - 1 words of name at most
+    for n in ([65532, 262119] if tier == "quick" else [65531, 65532, 65536, 131072, 262116, 262119]):
+        ep = I(g.opv["EntryPoint"], "EntryPoint", None, None,
+               [Op("w", g.vix["ExecutionModel"], 0), Op("w", idr, 2), Op("s", sv, list(instgen.long_string(n, 3))), Op("w", idr, 7)])
+        out.append((f"OpEntryPoint/{n}", [ep], 0))
+    # id lists: OpTypeStruct with 65532 / 65533 members (65534 / 65535 words)
+    for n in (255, 256, 257, 65532, 65533):
+        out.append((f"OpTypeStruct/{n}", [I(g.opv["TypeStruct"], "TypeStruct", None, 1, [Op("w", idr, 2 + (k % 50000)) for k in range(n)])], 0))
+    # pair lists: OpSwitch with 32765 / 32766 cases (65533 / 65535 words) inside a block
+    for n in (32765, 32766):
+        ops = [Op("w", idr, 5), Op("w", idr, 4)]
+        for k in range(n):
+            ops += [Op("w", l32, k), Op("w", idr, 4)]
+        body = [I(g.opv["TypeVoid"], "TypeVoid", None, 1, []),
+                I(g.opv["TypeFunction"], "TypeFunction", None, 2, [Op("w", idr, 1)]),
+                I(g.opv["Function"], "Function", 1, 3, [Op("w", g.vix["FunctionControl"], 0), Op("w", idr, 2)]),
+                I(g.opv["Label"], "Label", None, 4, []),
+                I(g.opv["Switch"], "Switch", None, None, ops),
+                I(g.opv["FunctionEnd"], "FunctionEnd", None, None, [])]
+        out.append((f"OpSwitch/{n}", body, 4))
+    return out
